@@ -316,7 +316,7 @@ def e_segmentation_image(c):
     base = _segm(c)
     if base is None:
         return
-    arr = c.plain(base.data.copy(), 'segm_array', dtype=int)
+    arr = c.labels(base.data.copy(), 'segm_array')
     s = c.call(SegmentationImage, arr)
     if s is None:
         return
@@ -338,7 +338,7 @@ def e_segmentation_image(c):
         c.call(s.remove_labels, c.plain(s.labels[:1], 'labels', dtype=int))
     c.call(s.relabel_consecutive, 2)
     c.call(s.remove_border_labels, 2)
-    arr2 = c.plain(base.data.copy(), 'segm_array2', dtype=int)
+    arr2 = c.labels(base.data.copy(), 'segm_array2')
     c.call(setattr, s, 'data', arr2)
     c.read_all(s, skip=('cmap',))
     if s.nlabels:
@@ -882,6 +882,14 @@ def e_depth(c):
     mk = c.boolarr(m, 'mask_arg')
     c.call(d, c.data, mk)
     c.read_all(d)
+    # (xi) nothing-detected source mask: all False, caller-owned, and the same object used for a second request
+    empty = c.plain(np.zeros(c.shape, bool), 'mask_allfalse', dtype=bool)
+    c.call(d, c.data, empty)
+    d2 = c.call(ImageDepth, 2.5, nsigma=3.0, napers=20, niters=1, mask_pad=int(c.rng.integers(0, 3)), seed=2,
+                progress_bar=False)
+    if d2 is not None:
+        c.call(d2, c.data, empty)
+        c.read_all(d2)
 
 
 @entry('gini')
@@ -1336,7 +1344,7 @@ def e_segm_single(c):
     base = _segm(c)
     if base is None or base.nlabels < 2:
         return
-    arr = c.plain(base.data.copy(), 'segm_array', dtype=int)
+    arr = c.labels(base.data.copy(), 'segm_array')
     s = c.call(SegmentationImage, arr)
     if s is None:
         return
@@ -1349,7 +1357,7 @@ def e_segm_single(c):
     c.call(s.get_index, lab)
     c.call(s.reassign_label, lab, 99)
     c.call(s.keep_label, int(s.labels[-1]))
-    s2 = c.call(SegmentationImage, c.plain(base.data.copy(), 'segm_array', dtype=int))
+    s2 = c.call(SegmentationImage, c.labels(base.data.copy(), 'segm_array'))
     if s2 is not None:
         c.call(s2.remove_label, int(s2.labels[0]), relabel=True)
         seg = c.call(lambda: s2.segments[0])
@@ -1485,8 +1493,9 @@ def _nddata_form(c, kind, with_mask=True, wcs=None, which='data'):
     if with_mask:
         m = np.zeros(c.shape, bool) if c.raw_mask is None else c.raw_mask.copy()
         for (x, y) in c.xy:                      # masked pixels INSIDE every star cutout (not the core)
-            m[int(round(y)) + 3, int(round(x)) - 2] = True
-            m[int(round(y)) - 4, int(round(x)) + 1] = True
+            for (r_, c_) in ((int(round(y)) + 3, int(round(x)) - 2), (int(round(y)) - 4, int(round(x)) + 1)):
+                if 0 <= r_ < c.shape[0] and 0 <= c_ < c.shape[1]:
+                    m[r_, c_] = True
         mask = c.boolarr(m, 'nd_mask')
     if kind == 'none':
         unc = None
@@ -1878,14 +1887,14 @@ def e_param_segmentation(c):
     f = c.call(SourceFinder, c.par([5, 3], 'npixels', kinds=('int', 'intview', 'list')), nlevels=4, progress_bar=False)
     if f is not None:
         c.call(f, c.data, c.q(_thr(c)), mask=c.mask)
-    s = c.call(SegmentationImage, c.plain(base.data.copy(), 'segm_array', dtype=int))
+    s = c.call(SegmentationImage, c.labels(base.data.copy(), 'segm_array'))
     if s is None:
         return
     labs = np.asarray(s.labels)
     sel = {'inside': labs[:2], 'at': labs[::-1], 'beyond': np.r_[labs[:1], labs.max() + 7]}[mode]
     if rng.random() < 0.3 and len(labs) > 1:
         sel = np.r_[sel, sel[:1]]                     # duplicates, unsorted
-    la = c.par(sel, 'labels', kinds=('int', 'intview', 'list'))
+    la = c.par(sel, 'labels', kinds=('int', 'intview', 'list', 'tuple'))
     c.call(s.check_labels, la)
     c.call(s.get_indices, la)
     c.call(s.get_areas, la)
@@ -1899,7 +1908,7 @@ def e_param_segmentation(c):
                                        kinds=('int', 'intview', 'list')))
         c.call(cat.to_table, columns=c.own(['label', 'xcentroid', 'kron_flux'], 'columns'))
     c.call(s.keep_labels, la, relabel=bool(rng.integers(0, 2)))
-    s2 = c.call(SegmentationImage, c.plain(base.data.copy(), 'segm_array', dtype=int))
+    s2 = c.call(SegmentationImage, c.labels(base.data.copy(), 'segm_array'))
     if s2 is not None:
         c.call(s2.reassign_labels, la, c.par(int(labs.max()) + 3, 'new_label', kinds=('plain', 'int')))
         c.call(s2.remove_labels, c.par(np.asarray(s2.labels)[:1], 'labels', kinds=('int', 'list')), relabel=True)
@@ -2277,3 +2286,97 @@ def e_degenerate(c):
     x, y = off[0]
     rp = c.call(P.RadialProfile, c.data, (float(x), float(y)), c.plain(np.arange(0, 6.0), 'radii'), mask=c.mask)
     c.read_all(rp)
+
+
+# ----------------------------------------------------------------------
+# sixth layer (generic axes 2, x): objects WITH A HISTORY handed in as inputs, the same object used for two requests
+# ----------------------------------------------------------------------
+@entry('provenance')
+def e_provenance(c):
+    import astropy.units as u
+    from photutils.aperture import (ApertureStats, CircularAperture, EllipticalAperture, aperture_photometry)
+    from photutils.datasets import make_model_image, make_wcs
+    from photutils.psf import PSFPhotometry
+    from photutils.segmentation import SegmentationImage, SourceCatalog, deblend_sources
+    rng = c.rng
+    c.axes['axis2_x_provenance'] = 1
+    base = _segm(c)
+    if base is not None and base.nlabels >= 2:
+        s = SegmentationImage(base.data.copy())
+        _ = (s.areas, s.slices, s.bbox)                       # cached properties read BEFORE the edits
+        s.relabel_consecutive(start_label=int(rng.integers(2, 9)))
+        s.reassign_label(int(s.labels[0]), int(s.max_label) + 5)
+        if s.nlabels > 2 and rng.random() < 0.5:
+            s.remove_label(int(s.labels[-1]))
+        _ = (s.areas, s.labels)                               # and AFTER
+        c.own(s, 'segment_img_history')
+        cat = c.call(SourceCatalog, c.data, s, error=c.error, mask=c.mask, progress_bar=False)
+        c.read_all(cat, methods=('to_table',))
+        c.call(deblend_sources, c.data, s, 4, nlevels=4, progress_bar=False)
+        if cat is not None and cat.nlabels >= 2:
+            sub = c.call(cat.__getitem__, slice(0, 2))        # an indexed catalogue as detection_cat
+            if sub is not None:
+                c.call(SourceCatalog, c.data, s, detection_cat=cat, error=c.error, progress_bar=False)
+                c.read_all(sub)
+                c.call(sub.to_table)
+        sl = c.call(s.__getitem__, (slice(1, None), slice(2, None)))      # a sliced segmentation image
+        if sl is not None:
+            c.own(sl, 'segment_img_slice')
+            dview = c.data[1:, 2:] if hasattr(c.data, '__getitem__') else c.data
+            c.call(SourceCatalog, c.own(dview, 'data_slice'), sl, progress_bar=False)
+    # apertures with a history: to_sky -> to_pixel, indexing, in-place attribute update; used twice
+    wcs = make_wcs(c.shape)
+    ap0 = CircularAperture(c.xy, 4.0)
+    sky = c.call(ap0.to_sky, wcs)
+    if sky is not None:
+        c.own(sky, 'sky_aperture')
+        ap1 = c.call(sky.to_pixel, wcs)
+        if ap1 is not None:
+            c.own(ap1, 'aperture_roundtrip')
+            ap2 = ap1[:2] if len(ap1) > 1 else ap1
+            c.own(ap2, 'aperture_indexed')
+            ap2.r = 3.5                                       # in-place update by the caller before use
+            for ap in (ap1, ap2):
+                c.call(aperture_photometry, c.data, ap, error=c.error, mask=c.mask)
+                c.call(aperture_photometry, c.data, ap, error=c.error, mask=c.mask)      # same object again
+                st = c.call(ApertureStats, c.data, ap, mask=c.mask)
+                c.read_all(st)
+                c.read_all(ap)
+        c.call(aperture_photometry, c.data, sky, wcs=wcs, mask=c.mask)
+        c.call(aperture_photometry, c.data, sky, wcs=wcs, mask=c.mask)                  # sky path object used twice
+        c.read_all(sky)
+    el = EllipticalAperture(c.xy, 5.0, 3.0, theta=30.0 * u.deg)
+    c.own(el, 'aperture_theta_deg')
+    esky = c.call(el.to_sky, wcs)
+    if esky is not None:
+        c.own(esky, 'sky_aperture')
+        e1 = c.call(esky.to_pixel, wcs)
+        e2 = c.call(esky.to_pixel, wcs)                       # theta converted twice
+        c.read_all(esky)
+        for e_ in (e1, e2):
+            if e_ is not None:
+                c.call(aperture_photometry, c.data, e_, mask=c.mask)
+        c.read_all(el)
+    # a model that was copied and evaluated before; a table that is a slice of another
+    model = _psf_model(c)
+    m2 = model.copy()
+    m2(np.array([1.0, 2.0]), np.array([1.0, 2.0]))
+    m2.flux = 3.0
+    c.own(m2, 'psf_model_history')
+    full = c.star_table()
+    part = c.own(full[1:], 'table_slice')
+    c.call(make_model_image, c.shape, m2, part, model_shape=(7, 7))
+    p = c.call(PSFPhotometry, m2, (5, 5), aperture_radius=4.0, progress_bar=False)
+    if p is not None:
+        c.call(p, c.data, mask=c.mask, error=c.error, init_params=part)
+        c.call(p, c.data, mask=c.mask, error=c.error, init_params=part)                # same fitter, same table again
+        c.read_all(p)
+
+
+@entry('geometry')
+def e_geometry(c):
+    """The three compiled overlap kernels take scalars only (no caller-owned arrays); called for the surface audit."""
+    from photutils.geometry import circular_overlap_grid, elliptical_overlap_grid, rectangular_overlap_grid
+    c.call(circular_overlap_grid, -2.0, 2.0, -2.0, 2.0, 5, 5, 1.5, 1, 5)
+    c.call(elliptical_overlap_grid, -2.0, 2.0, -2.0, 2.0, 5, 5, 1.5, 1.0, 0.3, 1, 5)
+    c.call(rectangular_overlap_grid, -2.0, 2.0, -2.0, 2.0, 5, 5, 2.0, 1.0, 0.3, 0, 5)
